@@ -298,6 +298,9 @@ def step (line : String) : String :=
   | ["asopt", a] => withShape a fun a => sexp a.asOptional
   | ["asnonopt", a] => withShape a fun a => sexp a.asNonOptional
   | ["isopt", a] => withShape a fun a => showBool a.isOptional
+  | ["kinds", a] => withShape a fun a =>
+      String.ofList ([Kind.null, .boolean, .number, .string, .array, .tuple, .object, .oneOf].map
+        fun k => if kindOf a == k then '1' else '0')
   | ["keys", a] => withShape a fun a =>
       match a.keys with
       | some ks => "some" ++ ks.foldl (fun acc k => acc ++ " " ++ hexOfString k) ""
